@@ -61,6 +61,7 @@ def main():
 
     warnings.filterwarnings("ignore", message="numpy.core is deprecated")
     warnings.filterwarnings("ignore", message="Skipping some optimization steps")
+    warnings.filterwarnings("ignore", message="SciPy is not installed")
     rep = common.Report(cid, args.tier, seed)
     mod = importlib.import_module(f"harness.props.{cid.lower()}")
     rep.rule = getattr(mod, "RULE", "")
